@@ -8,6 +8,7 @@
     the program/mailbox is outside every listed class of Model/SearchClass.v;
     each class has a [c19_refuted_...] witness below. *)
 From Coq Require Import String Ascii List Bool Arith ZArith Sorted.
+From Raven Require Spec.SeqSet.
 From Raven Require Import Base.GoStr Model.Search Model.SearchText Spec.Search Model.SearchClass
   Proof.SearchHandler Proof.SearchTok Proof.SearchMain Proof.SearchUid Proof.SearchRefuted Proof.SearchTotal.
 Import ListNotations.
@@ -32,14 +33,22 @@ Theorem c19_search_cmd_exact : forall (tag cmd : str) (ks : list key) (mb : list
 Proof. exact search_cmd_exact. Qed.
 Print Assumptions c19_search_cmd_exact.
 
-(** UID SEARCH (a separate implementation) is exact on the two program shapes
-    it evaluates: ALL and UID a:b with a <= b *)
-Theorem c19_uid_search_exact_partial : forall (tag : str) (ks : list key) (mb : list smsg),
-  wf_prog ks = true -> classify_uid ks = None ->
-  handle_uid_search (tag :: S_ "UID" :: S_ "SEARCH" :: prog_tokens ks) (to_msgs mb) = ROk (spec_uid_search_list ks mb)
+(** UID SEARCH runs the same evaluator (fix "UID SEARCH runs the SEARCH
+    evaluator"): for every well-formed program outside the classes and every
+    mailbox it returns exactly the UIDs of the messages that satisfy all keys *)
+Theorem c19_uid_search_exact : forall (ks : list key) (mb : list smsg),
+  wf_prog ks = true -> mb_ok mb = true -> classify ks mb = None ->
+  uid_search (to_msgs mb) (print_prog ks) = Some (spec_uid_search_list ks mb)
   /\ spec_uid_search ks mb = SOk (spec_uid_search_list ks mb).
 Proof. exact uid_search_exact. Qed.
-Print Assumptions c19_uid_search_exact_partial.
+Print Assumptions c19_uid_search_exact.
+
+Theorem c19_uid_search_cmd_exact : forall (tag uid cmd : str) (ks : list key) (mb : list smsg),
+  wf_prog ks = true -> mb_ok mb = true -> classify_line ks mb = None ->
+  str_eqb (to_upper (nth 0 (fields (print_prog ks)) [])) (S_ "CHARSET") = false ->
+  uid_search_cmd (tag :: uid :: cmd :: fields (print_prog ks)) (to_msgs mb) = ROk (spec_uid_search_list ks mb).
+Proof. exact uid_search_cmd_exact. Qed.
+Print Assumptions c19_uid_search_cmd_exact.
 
 (** the tokenizer returns the tokens of a printed program unchanged *)
 Theorem c19_tokenizer_roundtrip : forall toks : list str,
@@ -55,8 +64,8 @@ Theorem c19_ascending_nodup : forall (T : text_ops) (parts : list str) (msgs : l
 Proof. exact search_ascending. Qed.
 Print Assumptions c19_ascending_nodup.
 
-Theorem c19_uid_ascending_nodup : forall (parts : list str) (msgs : list msg) (l : list Z),
-  StronglySorted Z.lt (map m_uid msgs) -> handle_uid_search parts msgs = ROk l ->
+Theorem c19_uid_ascending_nodup : forall (T : text_ops) (parts : list str) (msgs : list msg) (l : list Z),
+  StronglySorted Z.lt (map m_uid msgs) -> handle_uid_search T parts msgs = ROk l ->
   StronglySorted Z.lt l /\ NoDup l /\ incl l (map m_uid msgs).
 Proof. exact uid_search_ascending. Qed.
 Print Assumptions c19_uid_ascending_nodup.
@@ -69,6 +78,14 @@ Theorem c19_badcharset :
     handle_search T (tag :: cmd :: kwd :: cs :: rest) msgs = RNo.
 Proof. exact badcharset_no. Qed.
 Print Assumptions c19_badcharset.
+
+Theorem c19_uid_badcharset :
+  forall (T : text_ops) (tag uid cmd kwd cs : str) (rest : list str) (msgs : list msg),
+    to_upper kwd = S_ "CHARSET" ->
+    to_upper cs <> S_ "US-ASCII" -> to_upper cs <> S_ "UTF-8" ->
+    handle_uid_search T (tag :: uid :: cmd :: kwd :: cs :: rest) msgs = RNo.
+Proof. exact uid_badcharset_no. Qed.
+Print Assumptions c19_uid_badcharset.
 
 (** a supported charset is accepted and dropped *)
 Theorem c19_charset_dropped :
@@ -84,26 +101,30 @@ Print Assumptions c19_charset_dropped.
     panic any more (the model has no run-time failure left): the reply is
     always a result or an error. *)
 Theorem c19_never_panics : forall (T : text_ops) (parts : list str) (msgs : list msg),
-  handle_search T parts msgs <> RPanic.
-Proof. exact search_never_panics. Qed.
+  handle_search T parts msgs <> RPanic /\ handle_uid_search T parts msgs <> RPanic.
+Proof. intros T parts msgs. split; [apply search_never_panics | apply uid_search_never_panics]. Qed.
 Print Assumptions c19_never_panics.
 
 (** ** where raven violates the property: one witness per class *)
-Theorem c19_refuted_comma_set : exists ks mb, refutes CCommaSet ks mb.
-Proof. exact refuted_comma_set. Qed.
-Print Assumptions c19_refuted_comma_set.
-Theorem c19_refuted_star : exists ks mb, refutes CStar ks mb.
-Proof. exact refuted_star. Qed.
-Print Assumptions c19_refuted_star.
-Theorem c19_refuted_reversed_range : exists ks mb, refutes CReversedRange ks mb.
-Proof. exact refuted_reversed_range. Qed.
-Print Assumptions c19_refuted_reversed_range.
-Theorem c19_refuted_paren_group : exists ks mb, refutes CParenGroup ks mb.
-Proof. exact refuted_paren_group. Qed.
-Print Assumptions c19_refuted_paren_group.
-Theorem c19_refuted_not_or_arity : exists ks mb, refutes CNotOrArity ks mb.
-Proof. exact refuted_not_or_arity. Qed.
-Print Assumptions c19_refuted_not_or_arity.
+(** repaired by 32751d9 (SEARCH sets follow RFC 3501): comma lists, "*", reversed ranges *)
+Example c19_sets_repaired :
+  search_line [KSeq [sone 1; sone 3]] wit_mb = ROk [1; 3]
+  /\ search_line [KSeq [Spec.SeqSet.One Spec.SeqSet.Star]] wit_mb = ROk [3]
+  /\ search_line [KSeq [srange 3 1]] wit_mb = ROk [1; 2; 3]
+  /\ search_line [KUid [Spec.SeqSet.Range (Spec.SeqSet.Num 2) Spec.SeqSet.Star; sone 1]; KNot (KSeq [sone 2])] wit_mb = ROk [1; 3]
+  /\ classify_line [KUid [Spec.SeqSet.Range (Spec.SeqSet.Num 2) Spec.SeqSet.Star; sone 1]; KNot (KSeq [sone 2])] wit_mb = None.
+Proof. exact sets_repaired. Qed.
+
+(** repaired by "NOT and OR take complete search keys": the former witnesses of
+    paren_group / not_or_arity and a nested program meet the specification *)
+Example c19_arity_repaired :
+  search_line [KGroup [KHas FSeen]] wit_mb = ROk [1]
+  /\ search_line [KNot (KHeader (S_ "Subject") (S_ "hello"))] wit_mb = ROk [2; 3]
+  /\ wf_prog ex_nested = true /\ classify_line ex_nested wit_mb = None
+  /\ print_prog ex_nested = S_ "OR (SEEN FROM ""alice"") NOT OR HEADER ""Subject"" ""other"" NOT ((TEXT ""three""))"
+  /\ search_line ex_nested wit_mb = ROk [1; 3] /\ spec_search ex_nested wit_mb = SOk [1; 3].
+Proof. exact arity_repaired. Qed.
+
 Theorem c19_refuted_unknown_key : exists ks mb, refutes CUnknownKey ks mb.
 Proof. exact refuted_unknown_key. Qed.
 Print Assumptions c19_refuted_unknown_key.
@@ -123,12 +144,16 @@ Print Assumptions c19_refuted_text_atom_sent_date.
 Theorem c19_refuted_quoted_space : exists ks mb, refutes CQuotedSpace ks mb.
 Proof. exact refuted_quoted_space. Qed.
 Print Assumptions c19_refuted_quoted_space.
-Theorem c19_refuted_uid_search_single : exists ks mb, refutes_uid CUidSingle ks mb.
-Proof. exact refuted_uid_search_single. Qed.
-Print Assumptions c19_refuted_uid_search_single.
-Theorem c19_refuted_uid_search_ignores_keys : exists ks mb, refutes_uid CUidIgnoresKeys ks mb.
-Proof. exact refuted_uid_search_ignores_keys. Qed.
-Print Assumptions c19_refuted_uid_search_ignores_keys.
+(** repaired by "UID SEARCH runs the SEARCH evaluator": the former witnesses of
+    uid_search_ignores_keys / uid_search_single meet the specification *)
+Example c19_uid_search_repaired :
+  uid_search_line [KUn FSeen] wit_mb = ROk [2; 3]
+  /\ reply_ok (uid_search_line [KUn FSeen] wit_mb) (spec_uid_search [KUn FSeen] wit_mb) = true
+  /\ uid_search_line [KUid [sone 2]] wit_mb = ROk [2]
+  /\ reply_ok (uid_search_line [KUid [sone 2]] wit_mb) (spec_uid_search [KUid [sone 2]] wit_mb) = true
+  /\ uid_search_line [KNot (KHas FSeen); KHdr HFrom (S_ "bob")] wit_mb = ROk [2].
+Proof. exact uid_search_repaired. Qed.
+
 (** repaired by bb43d4f (guard before the second OR key): the former panic
     witness is answered "no match" ... *)
 Example c19_or_panic_repaired :
@@ -150,11 +175,11 @@ Proof. exact sent_date_as_written. Qed.
 (** a copied message (same text, byte-identical flags, listed twice): every
     entry is judged on its own sequence number, UID and internal date *)
 Example c19_copied_entries_on_their_own :
-  classify_line [KOr (one_ "2") (KHdr HFrom (S_ "carol"))] copy_mb = None
-  /\ search_line [one_ "1"] copy_mb = ROk [1] /\ search_line [one_ "2"] copy_mb = ROk [2]
-  /\ search_line [KNot (one_ "1")] copy_mb = ROk [2; 3]
-  /\ search_line [KOr (one_ "2") (KHdr HFrom (S_ "carol"))] copy_mb = ROk [2; 3]
-  /\ search_line [KUid [SRange (SNum (S_ "2")) (SNum (S_ "3"))]] copy_mb = ROk [2; 3]
+  classify_line [KOr (one_ 2) (KHdr HFrom (S_ "carol"))] copy_mb = None
+  /\ search_line [one_ 1] copy_mb = ROk [1] /\ search_line [one_ 2] copy_mb = ROk [2]
+  /\ search_line [KNot (one_ 1)] copy_mb = ROk [2; 3]
+  /\ search_line [KOr (one_ 2) (KHdr HFrom (S_ "carol"))] copy_mb = ROk [2; 3]
+  /\ search_line [KUid [srange 2 3]] copy_mb = ROk [2; 3]
   /\ search_line [KDate false COn (S_ "1", 10, S_ "2026")] copy_mb = ROk [1].
 Proof. exact copied_entries_on_their_own. Qed.
 
@@ -162,8 +187,8 @@ Proof. exact copied_entries_on_their_own. Qed.
     a keyword, a date, a size and a string key satisfies every hypothesis of
     c19_search_cmd_exact on the witness mailbox, and selects a proper subset *)
 Definition ex_prog : list key :=
-  [ KNot (KHas FSeen); KOr (KSeq [SRange (SNum (S_ "2")) (SNum (S_ "3"))]) (KKeyword (S_ "work"));
-    KUid [SRange (SNum (S_ "1")) (SNum (S_ "9"))]; KDate false CSince (S_ "1", 1, S_ "2020");
+  [ KNot (KHas FSeen); KOr (KSeq [srange 2 3]) (KKeyword (S_ "work"));
+    KUid [srange 1 9]; KDate false CSince (S_ "1", 1, S_ "2020");
     KLarger (S_ "10"); KText (S_ "body t") ].
 Example c19_fragment_example :
   wf_prog ex_prog = true /\ mb_ok wit_mb = true /\ classify_line ex_prog wit_mb = None
